@@ -104,6 +104,81 @@ def judge(ctx, m, tag, order=None):
         ctx.hit("identical-numbering")
 
 
+PRE_ATTRS = ["edge_node_connectivity", "face_edge_connectivity", "n_nodes_per_face", "edge_face_connectivity",
+             "node_face_connectivity", "face_face_connectivity", "hole_edge_indices", "edge_face_distances"]
+
+
+def draw_derivation(rng, m):
+    """a grid DERIVED from a built one: what was read on the parent first, then 1-2 selections (faces in any
+    order and shape: non-adjacent, notched, single; node- or edge-based) and possibly a copy()"""
+    pre = rng.sample(PRE_ATTRS, rng.randint(0, 4))
+    steps, nf = [], m.n_face
+    for _ in range(rng.choice([1, 1, 2])):
+        if nf < 1:
+            break
+        k = rng.randint(1, max(1, min(nf, 12)))
+        sel = rng.sample(range(nf), k)
+        if rng.random() < 0.3:
+            sel.sort()
+        steps.append(["n_face", sel])
+        nf = k
+    if rng.random() < 0.2:
+        steps.append(["copy", []])
+    return dict(pre=pre, steps=steps)
+
+
+def derive(g, der):
+    for name in der["pre"]:
+        getattr(g, name)
+    for kind, sel in der["steps"]:
+        g = g.copy() if kind == "copy" else g.isel(**{kind: list(sel)})
+    return g
+
+
+def judge_derived(ctx, m, tag, der=None, order=None):
+    """the statement is about EVERY grid the library hands out, so the same verdict (Lean `Edges.Spec` on the
+    grid's own face table) is asked of grids derived by isel/copy from a parent with any history"""
+    import uxarray as ux
+
+    der = der or draw_derivation(ctx.rng, m)
+    order = list(ctx.rng.choice(ORDERS)) if order is None else order
+    inp = dict(mesh=m.describe(), table=m.rows(), tag=tag, derivation=der, access_order=order)
+    key = (tag, m.rows(), str(der))
+    try:
+        g = derive(meshes.to_grid(m, ux), der)
+        for name in order:
+            getattr(g, name)
+        t = [[int(x) for x in r] for r in g.face_node_connectivity.values]
+        o = dict(edges=[(int(a), int(b)) for a, b in g.edge_node_connectivity.values],
+                 faceEdges=[[int(x) for x in r] for r in g.face_edge_connectivity.values],
+                 nPerFace=[int(x) for x in g.n_nodes_per_face.values], n_edge=int(g.n_edge))
+        n_node = int(g.n_node)
+    except Exception as e:
+        ctx.case(key, sample=inp)
+        ctx.fail(f"C02/derived/raises/{type(e).__name__}", f"edge tables of a derived grid raise {type(e).__name__}: {e}", inp)
+        return
+    d = ctx.driver
+    w = len(t[0])
+    ctx.case(key, nontrivial=len(t) > 1, sample=dict(inp, implementation=o) if len(t) <= 3 else None)
+    ctx.hit("derived:" + "+".join(k for k, _ in der["steps"]))
+    ctx.hit("derived:parent-read-first" if der["pre"] else "derived:fresh-parent")
+    if d.ask("C02.std", n_node, w, enc_rows(t)) != "1":
+        ctx.fail("C02/derived/face-table-not-standard", "the derived grid's face table is not in standard form", inp, dict(o, table=t))
+        return
+    verdict = d.ask("C02.spec", w, enc_rows(t), enc_pairs(o["edges"]), enc_rows(o["faceEdges"]), enc_ints(o["nPerFace"]))
+    mo = common.Tok(d.ask("C02.model", enc_rows(t)))
+    model = dict(edges=mo.pairs(), faceEdges=mo.rows(), nPerFace=mo.ints())
+    if verdict != "ok":
+        clauses = verdict.split(" ", 1)[1].split(",")
+        ctx.fail("C02/derived/" + "+".join(clauses), "edge tables of a derived grid do not describe its faces' boundary segments: " + verdict,
+                 inp, dict(o, table=t), model, clauses)
+        return
+    if o["n_edge"] != len(o["edges"]):
+        ctx.fail("C02/derived/n_edge", "n_edge differs from the number of edge rows", inp, o, model, ["n_edge"])
+    if canon(o["edges"], o["faceEdges"]) != canon(model["edges"], model["faceEdges"]) or o["nPerFace"] != model["nPerFace"]:
+        ctx.mismatch("C02/derived/canon-edges", inp, o, model)
+
+
 def small_scope(ctx):
     """every standard-form table with <= F faces over <= N nodes, sizes 3..5, all rotations"""
     F, N = (2, 5) if not (ctx.thorough or ctx.escalate) else (3, 6)
@@ -133,7 +208,8 @@ def small_scope(ctx):
 def run(ctx):
     ctx.rule = ("meshes from harness/meshes.zoo (prisms, antiprisms, bipyramids, cube-sphere, convex-hull "
                 "triangulations and their duals, merged/split lattices, fans, isolated faces, holes; random "
-                "renumbering, start corner, rotation) + random small standard-form tables; distinct = distinct "
+                "renumbering, start corner, rotation) + random small standard-form tables + grids DERIVED from them (random reads on the parent, "
+                "1-2 isel(n_face=...) selections in any order/shape, copy()); distinct = distinct "
                 "face-node table; non-trivial = more than one face or mixed sizes")
     ctx.assumptions = ["NumPy semantics of np.unique/argmax/searchsorted are tied to the model only by this differential run",
                        "Euler's formula is tested on generated sphere tilings, not proved"]
@@ -143,6 +219,8 @@ def run(ctx):
             judge(ctx, m, m.kind)
             if m.n_face <= 40 and ctx.rng.random() < 0.3:
                 judge(ctx, meshes.with_orphans(m, ctx.rng), m.kind + "+orphans")
+            if m.n_face <= 200 and ctx.rng.random() < 0.5:
+                judge_derived(ctx, m, m.kind + "+derived")
 
 
 def replay(ctx, rp):
@@ -157,4 +235,7 @@ def replay(ctx, rp):
     import uxarray as ux
 
     observe(ux, meshes.prism(5))
+    if inp.get("derivation"):
+        judge_derived(ctx, m, "replay", inp["derivation"], inp.get("access_order"))
+        return
     judge(ctx, m, "replay", inp.get("access_order"))
